@@ -7,7 +7,8 @@ from ..probes import InjectedFault
 from ..explref import PfiRef, Mismatch, compare
 
 SHARDS = {"quick": 3, "thorough": 16}
-N_CFG = {"quick": 300, "thorough": 5000}
+TIMEOUT = {"quick": 1800, "thorough": 7200}
+N_CFG = {"quick": 300, "thorough": 2000}
 
 
 def run_config(run, cfg, seed, tag):
@@ -127,7 +128,7 @@ def main(run):
     for i in range(N_CFG[run.tier]):
         cfg = gen_cfg(rnd, "pfi", exact=(i % 3 != 2))
         if i in (40, 41) or (run.tier == "thorough" and i % 1500 == 42):      # thousands of calls on one explainer (exact and float)
-            make_long(cfg, rnd, 4200 if i == 41 else rnd.choice([1100, 2100, 5000 if run.tier == "thorough" else 1300]))
+            make_long(cfg, rnd, 4200 if i == 41 else rnd.choice([1100, 1300, (5000 if run.tier == "thorough" else 2100) if not cfg["exact"] else 1200]))
             run.count("long-stream-configs")
         if i in (50, 51, 53, 56) or (run.tier == "thorough" and i % 300 == 50):      # model that becomes informative after ~40 observations
             make_phase(cfg, rnd, dyn=(i == 51))
